@@ -231,6 +231,34 @@ static void map_monitor(Report & rep)
       bool ord = true;
       for (int i = 0; i < R; ++i) ord = ord && cf.coeffs()(i) == float(v1.coeffs()(i));
       rep.require(T + ".cast_no_reorder", st, ord, det);
+      {
+        // arbitrary coefficient contents under a view (not a valid element: e.g. q_w < 0, non-unit): copies and casts
+        // are coefficient-wise, also through the rotation sub-views
+        Eigen::Matrix<S, R, 1> raw;
+        for (int i = 0; i < R; ++i) raw(i) = S(2 * r.sym());
+        smooth::Map<const G> kr(raw.data());
+        const auto cd = kr.template cast<double>();
+        const auto cq = kr.template cast<float>();
+        bool okc = true;
+        for (int i = 0; i < R; ++i) okc = okc && cd.coeffs()(i) == double(raw(i)) && cq.coeffs()(i) == float(raw(i));
+        const G copy(kr);
+        G asg;
+        asg = kr;
+        okc = okc && copy.coeffs() == raw && asg.coeffs() == raw;
+        auto sub_ok = [&](const auto & view) {
+          const auto c1 = view.template cast<double>();
+          const auto c2 = view.template cast<float>();
+          bool o = true;
+          for (int i = 0; i < int(view.coeffs().size()); ++i) o = o && c1.coeffs()(i) == double(view.coeffs()(i)) && c2.coeffs()(i) == float(view.coeffs()(i));
+          return o;
+        };
+        if constexpr (requires { kr.so3(); }) okc = okc && sub_ok(kr.so3());
+        if constexpr (requires { kr.so2(); }) okc = okc && sub_ok(kr.so2());
+        if constexpr (requires { kr.template part<0>(); }) {
+          if constexpr (requires { kr.template part<0>().coeffs(); }) okc = okc && sub_ok(kr.template part<0>());
+        }
+        rep.require(T + ".raw_contents.cast_and_copy_verbatim", st, okc, [&]() { return JObj().str("type", T).raw("raw", hexv(toL(raw))).done(); });
+      }
     }
     A1.unpoison();
     A2.unpoison();
